@@ -34,7 +34,7 @@ Proof.
   assert (HA' : InvA s') by (eapply InvA_step; eauto).
   destruct (proj2 HA' ai a' Ha') as [_ [_ [H2 _]]]. specialize (H2 Hst').
   destruct (step_adapter _ _ _ _ _ Hs Ha) as [a2 [Ha2 Hc]]. rewrite Ha' in Ha2. inversion Ha2; subst a2.
-  destruct Hc as [-> _ _ | p _ -> | p _ -> | _ _ -> | r Hl Hc]; simpl in Hst'; try congruence.
+  destruct Hc as [-> _ _ _ | p _ -> | p _ -> | _ _ -> | p _ -> | r Hl Hc]; simpl in Hst'; try congruence.
   destruct Hc as [_ [_ [_ [_ [_ [_ [Hg _]]]]]]]. split; [eauto |]. split; [exact Hg | lia].
 Qed.
 
@@ -118,7 +118,7 @@ Definition InvF (s : state) : Prop :=
 
 Lemma achg_tB : forall s l ai a a', achg s l ai a a' -> tB a <= now s -> tB a <= tB a'.
 Proof.
-  intros s l ai a a' H Hn. destruct H as [-> _ _ | p _ -> | p _ -> | _ _ -> | r _ Hc]; simpl; try lia.
+  intros s l ai a a' H Hn. destruct H as [-> _ _ _ | p _ -> | p _ -> | _ _ -> | p _ -> | r _ Hc]; simpl; try lia.
   destruct Hc as [_ [_ [_ [_ [_ [_ [_ [_ [Hk | Hk]]]]]]]]]; lia.
 Qed.
 
@@ -151,6 +151,9 @@ Proof.
   - destruct (step_refresh _ _ _ _ Hs) as [-> | (_ & att' & rot & _ & _ & _ & _ & _ & _ & _ & _ & Hq & Hp & _ & _ & Hrq & Hpl & _)]; [apply Hleft; reflexivity |].
     apply Hleft; auto.
   - destruct (get ai s); inversion Hs; subst. apply Hleft; reflexivity.
+  - destruct (get ai s) as [a0 |]; [| discriminate].
+    destruct (probe && negb (memN ai (pcalls s))); [discriminate |].
+    inversion Hs; subst; clear Hs. destruct probe; apply Hleft; reflexivity.
 Qed.
 
 Lemma InvF_check_one : forall r s e, InvA s -> InvF s -> InvF (check_one r s e).
@@ -335,6 +338,9 @@ Proof.
     inversion Hs; subst; clear Hs. right. right. exists ai. auto.
   - destruct (step_refresh _ _ _ _ Hs) as [-> | (_ & att' & rot & _ & _ & _ & _ & _ & _ & _ & _ & _ & _ & _ & Hr & _)]; left; [reflexivity | exact Hr].
   - destruct (get ai s); inversion Hs; subst. left; reflexivity.
+  - destruct (get ai s) as [a0 |]; [| discriminate].
+    destruct (probe && negb (memN ai (pcalls s))); [discriminate |].
+    inversion Hs; subst; clear Hs. destruct probe; left; reflexivity.
 Qed.
 
 Lemma memN_remove_first_sub : forall x y l, memN x (remove_first y l) = true -> memN x l = true.
@@ -360,7 +366,7 @@ Proof.
   - destruct (step s l) as [s1 |] eqn:Hs; [| discriminate].
     destruct (step_adapter _ _ _ _ _ Hs Hg) as [a1 [Hg1 Hc]].
     assert (Hst1 : ast a1 = false).
-    { destruct Hc as [-> _ _ | p _ -> | p _ -> | _ Hmem _ | r _ Hc]; simpl; auto; [congruence |].
+    { destruct Hc as [-> _ _ _ | p _ -> | p _ -> | _ Hmem _ | p _ -> | r _ Hc]; simpl; auto; [congruence |].
       destruct Hc as [_ [_ [_ [_ [_ [_ [_ [Hk _]]]]]]]]. auto. }
     assert (Hm1 : memN ai (reinst s1) = false).
     { destruct (step_reinst_cases _ _ _ Hs) as [-> | [[aj [Hl ->]] | [aj [_ [_ ->]]]]]; [exact Hm | |].
@@ -444,10 +450,13 @@ Proof.
     inversion Hs; subst; clear Hs. reflexivity.
   - destruct (step_refresh _ _ _ _ Hs) as [-> | (_ & att' & rot & _ & _ & Hn & _)]; [reflexivity | exact Hn].
   - destruct (get ai s); inversion Hs; subst. reflexivity.
+  - destruct (get ai s) as [a0 |]; [| discriminate].
+    destruct (probe && negb (memN ai (pcalls s))); [discriminate |].
+    inversion Hs; subst; clear Hs. destruct probe; reflexivity.
 Qed.
 
 Lemma fst_upd_lastok : forall ai c t l, fst (upd_lastok ai (c, t) l) = upd_clock c l.
-Proof. intros ai c t l. destruct l; simpl; try reflexivity. destruct ok; [destruct (N.eqb ai0 ai) |]; reflexivity. Qed.
+Proof. intros ai c t l. destruct l; simpl; try reflexivity; [destruct ok; [destruct (N.eqb ai0 ai) |] | destruct (N.eqb ai0 ai)]; reflexivity. Qed.
 
 Lemma hist_step : forall ai s l s' g k c t, hist_inv ai s g k c t -> step s l = Some s' ->
   hist_inv ai s' (upd_fails ai g l) (upd_streak ai k l) (upd_clock c l) (snd (upd_lastok ai (c, t) l)).
@@ -455,19 +464,23 @@ Proof.
   intros ai s l s' g k c t [Hn H] Hs. split; [rewrite (step_now _ _ _ Hs), Hn; reflexivity |].
   destruct (get ai s) as [a |] eqn:Hg.
   - destruct H as [H1 [H2 H3]]. destruct (step_adapter _ _ _ _ _ Hs Hg) as [a' [Hg' Hc]]. rewrite Hg'.
-    destruct Hc as [-> Hno1 Hno2 | p -> -> | p -> -> | -> _ -> | r -> Hc].
+    destruct Hc as [-> Hno1 Hno2 Hno3 | p -> -> | p -> -> | -> _ -> | p -> -> | r -> Hc].
     + destruct l; simpl; auto.
       * destruct (N.eqb ai0 ai) eqn:He; [apply N.eqb_eq in He; subst ai0; exfalso; eapply Hno1; reflexivity |].
         destruct ok; auto.
       * destruct (N.eqb ai0 ai) eqn:He; [apply N.eqb_eq in He; subst ai0; exfalso; apply Hno2; reflexivity | auto].
+      * destruct (N.eqb ai0 ai) eqn:He; [apply N.eqb_eq in He; subst ai0; exfalso; eapply Hno3; reflexivity | auto].
     + simpl. rewrite N.eqb_refl. simpl. auto.
     + simpl. rewrite N.eqb_refl. simpl. repeat split; congruence.
+    + simpl. rewrite N.eqb_refl. simpl. auto.
     + simpl. rewrite N.eqb_refl. simpl. auto.
     + simpl. destruct Hc as [_ [_ [G3 [_ [G5 [_ [G7 _]]]]]]]. repeat split; congruence.
   - destruct H as [-> [-> ->]].
     assert (Hnop : upd_fails ai 0 l = 0 /\ upd_streak ai 0 l = 0 /\ snd (upd_lastok ai (c, 0) l) = 0).
     { destruct l; simpl; auto.
       - destruct (N.eqb ai0 ai) eqn:He; [| destruct ok; auto].
+        apply N.eqb_eq in He. subst ai0. simpl in Hs. rewrite Hg in Hs. discriminate.
+      - destruct (N.eqb ai0 ai) eqn:He; [| auto].
         apply N.eqb_eq in He. subst ai0. simpl in Hs. rewrite Hg in Hs. discriminate.
       - destruct (N.eqb ai0 ai) eqn:He; [| auto].
         apply N.eqb_eq in He. subst ai0. simpl in Hs. rewrite Hg in Hs. discriminate. }
@@ -567,4 +580,7 @@ Proof.
       destruct Hin as [Heq | Hin]; [inversion Heq; subst; rewrite N.eqb_refl in Hek; discriminate | auto]. }
     destruct Hex as [ai' Hl]. exists ai'. rewrite in_app_iff in Hneg. tauto.
   - destruct (get ai s); inversion Hs; subst. congruence.
+  - destruct (get ai s) as [a0 |]; [| discriminate].
+    destruct (probe && negb (memN ai (pcalls s))); [discriminate |].
+    inversion Hs; subst; clear Hs. destruct probe; simpl in H1; congruence.
 Qed.
